@@ -213,6 +213,9 @@ def gen_spec(seed, index, tier):
     base = _gen_base(rng.sub("shape"), cls)
     ops = rng.sub("ops")
     steps = []
+    # a tenth of the runs use the deprecated spelling (bounding_sphere / bounding_circle) for
+    # every ball query of the run: a result remembered under that name must follow the shape
+    alias_run = ops.chance(0.1)
     for qi in range(ops.randint(1, 3)):
         op = ops.weighted([("ball", 5), ("radius", 2), ("set_radius", 2), ("set_radius_bad", 1),
                            ("refused_rescale", 1)])
@@ -229,10 +232,10 @@ def gen_spec(seed, index, tier):
             # caller's own object, not state the next query depends on)
             st["scribble"] = ops.chance(0.3)
             # the deprecated spelling (bounding_sphere / bounding_circle) must give the same ball
-            st["alias"] = ops.chance(0.08)
+            st["alias"] = alias_run or ops.chance(0.04)
         steps.append(st)
     steps.append({"op": "ball", "pyseed": ops.u32(), "npseed": ops.u32(), "solver_script": [],
-                  "progress": True})
+                  "progress": True, "alias": alias_run})
     return {"property": PROP, "index": index, "seed": seed, "base": base, "steps": steps}
 
 
